@@ -151,12 +151,18 @@ class Stack(object):
                 self.frames['T'] = [list(f) for f in c2.normalized_rlc]
             except Exception:  # noqa
                 self.frames['T'] = self.frames['A']
+        if self.frames['T'] == self.frames['A'] and self.frames['A'][-1] != self.frames['A'][0]:
+            # encoders that put the flipped toggle into the LAST frame of a transmission (RC5, RC6 ...): that frame, arriving
+            # alone, is what the second press of the same key looks like
+            self.frames['T'] = [self.frames['A'][-1]]
         vlib.drain_workers()
         CLOCK[0] = 1000000
         self.down = {}
         self.last_obj = None
         self.arrivals = []
         self.superseded = set()
+        self.early_ok = {}          # id(code) -> releases that may come before the timeout: the press was ended by a toggle flip
+        self.toggle_state = None
         self._keep = []
         self.last_frame_time = {}
         self.bound = set()
@@ -189,6 +195,10 @@ class Stack(object):
         self.down[id(code)] = False
         lt = self.last_frame_time.get(id(code))
         superseded = id(code) in self.superseded or (self.last_obj is not None and self.last_obj != id(code))
+        if not superseded and self.early_ok.get(id(code)):
+            # the same key pressed again (toggle flipped): the earlier press ends at once, legitimately, and only once
+            self.early_ok[id(code)] -= 1
+            superseded = True
         if lt is not None and not superseded and CLOCK[0] - lt < code.repeat_timer.duration:
             self.problems.append(('release before the repeat timeout', dict(since_last_frame=CLOCK[0] - lt,
                                                                             timeout=code.repeat_timer.duration)))
@@ -206,6 +216,10 @@ class Stack(object):
             self.problems.append(('dispatcher raises ' + type(e).__name__, {}))
             return
         cur = self.d.mod._last_code
+        tog = None if which == 'B' else ('t1' if (which == 'T' and self.frames['T'] != self.frames['A']) else 't0')
+        if prev is not None and cur is prev and tog is not None and self.toggle_state is not None and tog != self.toggle_state:
+            self.early_ok[id(prev)] = self.early_ok.get(id(prev), 0) + 1
+        self.toggle_state = tog
         if prev is not None and cur is not prev:
             self.superseded.add(id(prev))          # a different key arrived: prev is released at once, legitimately
         after = sum(1 for fn, _ in pw.queue if fn == self.on_code)
